@@ -173,14 +173,49 @@ theorem handle_stale_mono (cfg : Cfg) (s : St) (i : Nat) : s.staleReads ≤ (han
     · exact cb_stale_mono cfg { s with flight := rest } m
     · exact Nat.le_refl _
 
+/-- `abandon` and `resume` touch neither the queue, the pipes nor the scheduled/sent logs -/
+theorem abandon_frame (s : St) (f : Nat) :
+    (abandon s f).items = s.items ∧ (abandon s f).flight = s.flight ∧ (abandon s f).delivered = s.delivered ∧
+    (abandon s f).sent = s.sent ∧ (abandon s f).handed = s.handed ∧ (abandon s f).readers = s.readers ∧
+    (abandon s f).staleReads = s.staleReads := by
+  unfold abandon; split <;> simp
+
+theorem runTask_frame (cfg : Cfg) (s : St) (t : Task) :
+    (runTask cfg s t).items = s.items ∧ (runTask cfg s t).flight = s.flight ∧ (runTask cfg s t).delivered = s.delivered ∧
+    (runTask cfg s t).sent = s.sent ∧ (runTask cfg s t).handed = s.handed ∧ (runTask cfg s t).readers = s.readers ∧
+    (runTask cfg s t).staleReads = s.staleReads := by
+  unfold runTask; (repeat' split) <;> simp
+
+theorem resume_frame (cfg : Cfg) (s : St) (i : Nat) :
+    (resume cfg s i).items = s.items ∧ (resume cfg s i).flight = s.flight ∧ (resume cfg s i).delivered = s.delivered ∧
+    (resume cfg s i).sent = s.sent ∧ (resume cfg s i).handed = s.handed ∧ (resume cfg s i).readers = s.readers ∧
+    (resume cfg s i).staleReads = s.staleReads := by
+  unfold resume
+  split
+  · simp
+  · split
+    · exact runTask_frame _ _ _
+    · simp
+
+theorem abandon_conserved (s : St) (f : Nat) (h : Conserved s) : Conserved (abandon s f) := by
+  intro y
+  obtain ⟨h1, h2, h3, h4, _⟩ := abandon_frame s f
+  rw [h1, h2, h3, h4]; exact h y
+
+theorem resume_conserved (cfg : Cfg) (s : St) (i : Nat) (h : Conserved s) : Conserved (resume cfg s i) := by
+  intro y
+  obtain ⟨h1, h2, h3, h4, _⟩ := resume_frame cfg s i
+  rw [h1, h2, h3, h4]; exact h y
+
 theorem step_conserved (cfg : Cfg) (hq : cfg.requeue = true) (hd : cfg.redispatch = true)
     (s : St) (a : Act) (h : Conserved s) : Conserved (step cfg s a) := by
   cases a with
-  | give t f x => exact give_conserved s t f x h
-  | take t f => exact take_conserved s t f h
-  | abandon f => intro y; exact h y
+  | give t f x => show Conserved (if s.waiting f then s else give s t f x); split; exact h; exact give_conserved s t f x h
+  | take t f => show Conserved (if s.waiting f then s else take s t f); split; exact h; exact take_conserved s t f h
+  | abandon f => exact abandon_conserved s f h
   | handle i => exact handle_conserved cfg hq hd s i h
   | close t => exact close_conserved s t h
+  | resume i => exact resume_conserved cfg s i h
 
 theorem run_conserved (cfg : Cfg) (hq : cfg.requeue = true) (hd : cfg.redispatch = true) :
     ∀ (acts : List Act) (s : St), Conserved s → Conserved (run cfg acts s) := by
@@ -193,20 +228,22 @@ theorem run_conserved (cfg : Cfg) (hq : cfg.requeue = true) (hd : cfg.redispatch
 
 theorem step_stale_mono (cfg : Cfg) (s : St) (a : Act) : s.staleReads ≤ (step cfg s a).staleReads := by
   cases a with
-  | give t f x => show s.staleReads ≤ (give s t f x).staleReads; unfold give; (repeat' split) <;> first | exact Nat.le_refl _ | simp
-  | take t f => show s.staleReads ≤ (take s t f).staleReads; unfold take; (repeat' split) <;> first | exact Nat.le_refl _ | simp
-  | abandon f => simp [step]
+  | give t f x => show s.staleReads ≤ (if s.waiting f then s else give s t f x).staleReads; unfold give; (repeat' split) <;> first | exact Nat.le_refl _ | simp
+  | take t f => show s.staleReads ≤ (if s.waiting f then s else take s t f).staleReads; unfold take; (repeat' split) <;> first | exact Nat.le_refl _ | simp
+  | abandon f => show s.staleReads ≤ (abandon s f).staleReads; rw [(abandon_frame s f).2.2.2.2.2.2]; exact Nat.le_refl _
   | handle i => exact handle_stale_mono cfg s i
   | close t => show s.staleReads ≤ (close s t).staleReads; unfold close; (repeat' split) <;> first | exact Nat.le_refl _ | simp
+  | resume i => show s.staleReads ≤ (resume cfg s i).staleReads; rw [(resume_frame cfg s i).2.2.2.2.2.2]; exact Nat.le_refl _
 
 theorem step_conserved_partial (cfg : Cfg) (s : St) (a : Act) (hz : (step cfg s a).staleReads = s.staleReads)
     (h : Conserved s) : Conserved (step cfg s a) := by
   cases a with
-  | give t f x => exact give_conserved s t f x h
-  | take t f => exact take_conserved s t f h
-  | abandon f => intro y; exact h y
+  | give t f x => show Conserved (if s.waiting f then s else give s t f x); split; exact h; exact give_conserved s t f x h
+  | take t f => show Conserved (if s.waiting f then s else take s t f); split; exact h; exact take_conserved s t f h
+  | abandon f => exact abandon_conserved s f h
   | handle i => exact handle_conserved' cfg s i (Or.inr hz) h
   | close t => exact close_conserved s t h
+  | resume i => exact resume_conserved cfg s i h
 
 theorem run_stale_mono (cfg : Cfg) : ∀ (acts : List Act) (s : St), s.staleReads ≤ (run cfg acts s).staleReads := by
   intro acts
@@ -254,7 +291,9 @@ theorem step_fifo (cfg : Cfg) (s : St) (a : Act) (hz : (step cfg s a).staleReads
     Fifo (step cfg s a) := by
   cases a with
   | give t f x =>
-    show Fifo (give s t f x)
+    show Fifo (if s.waiting f then s else give s t f x)
+    split
+    · exact h
     unfold give Fifo at *
     obtain ⟨h1, h2⟩ := h
     split
@@ -270,7 +309,9 @@ theorem step_fifo (cfg : Cfg) (s : St) (a : Act) (hz : (step cfg s a).staleReads
       · rename_i hr
         split <;> simp [hr, ← h2, List.append_assoc]
   | take t f =>
-    show Fifo (take s t f)
+    show Fifo (if s.waiting f then s else take s t f)
+    split
+    · exact h
     unfold take Fifo at *
     obtain ⟨h1, h2⟩ := h
     split
@@ -283,7 +324,14 @@ theorem step_fifo (cfg : Cfg) (s : St) (a : Act) (hz : (step cfg s a).staleReads
           · exact h1
           · rw [hi] at h1; cases h1
         split <;> simp [hr, hi, ← h2, List.append_assoc] at *
-  | abandon f => exact h
+  | abandon f =>
+    show Fifo (abandon s f)
+    obtain ⟨h1, _, _, h4, h5, h6, _⟩ := abandon_frame s f
+    unfold Fifo; rw [h1, h4, h5, h6]; exact h
+  | resume i =>
+    show Fifo (resume cfg s i)
+    obtain ⟨h1, _, _, h4, h5, h6, _⟩ := resume_frame cfg s i
+    unfold Fifo; rw [h1, h4, h5, h6]; exact h
   | handle i =>
     show Fifo (handle cfg s i)
     have hz' : (handle cfg s i).staleReads = s.staleReads := hz
